@@ -76,15 +76,9 @@ theorem errOutcome_cases (pfx : String) (e : Err) :
 theorem errOutcome_valueError (pfx : String) : errOutcome pfx .valueError = .cliError .reader pfx := by
   simp [errOutcome]
 
-theorem writeOut_cases (st : Args) (F : CNF) (hdr : Shuffle.Header) :
-    (st.output = .nil ∧ writeOut st F hdr = .escaped "AttributeError") ∨
-    (∃ d, destOf st.output = some d ∧
-      writeOut st F hdr = .ok d (renderDimacsText F (if st.verbose then some (toIOHeader hdr) else none) none)) := by
-  unfold writeOut
-  cases h : st.output with
-  | stdout => right; exact ⟨.stdout, rfl, rfl⟩
-  | file p => right; exact ⟨.file p, rfl, rfl⟩
-  | nil => left; exact ⟨rfl, rfl⟩
+theorem writeOut_eq (st : Args) (F : CNF) (hdr : Shuffle.Header) :
+    writeOut st F hdr =
+      .ok (destOf st.output) (renderDimacsText F (if st.verbose then some (toIOHeader hdr) else none) none) := rfl
 
 theorem toolArg_eq (b : Bool) : toolArg b = (if b then Shuffle.Arg.fixed else Shuffle.Arg.shuffle) := rfl
 
@@ -189,7 +183,7 @@ theorem act_inputOpened (env : Env) (st : Args) (o : Opt) (a : ArgV) (st' : Args
   · -- output
     cases a with
     | flag => cases h
-    | nil => simp at h; subst h; exact hp
+    | nil => simp at h
     | val v =>
       simp only at h
       unfold openWrite at h
@@ -206,7 +200,7 @@ theorem act_inputOpened (env : Env) (st : Args) (o : Opt) (a : ArgV) (st' : Args
     · -- input
       cases a with
       | flag => cases h
-      | nil => simp at h; subst h; intro p hpf; simp at hpf
+      | nil => simp at h
       | val v =>
         simp only [Option.map_eq_some_iff] at h
         obtain ⟨i, hi, rfl⟩ := h
@@ -222,7 +216,8 @@ theorem act_inputOpened (env : Env) (st : Args) (o : Opt) (a : ArgV) (st' : Args
             simpa using hcond
           · cases hi
     · split at h
-      · cases a <;> simp at h <;> subst h <;> exact hp
+      · cases a <;> simp at h
+        subst h; exact hp
       · repeat' split at h
         all_goals first | (simp at h; subst h; exact hp) | cases h
 
